@@ -94,6 +94,22 @@ CLAIMED["C10"] = dict(
     technique="Coq proof on key-acceptance predicates shared with the operation models + length-grid / invalid-key correspondence (extracted model, BigZ via coqc)",
 )
 
+CLAIMED["C18"] = dict(
+    category="proof",
+    text="Theorems in coq/Props/Properties_C18.v about a Gallina model of the command glue in cmd/ (what jcmd_*_prep_io multiplexes, how the payload/ciphertext is fed, exit status as a function of the library verdicts, the C tests on return values as written): jose jws ver exits 0 only if the library verdict on the text actually fed is 'valid' for EVERY option combination (C18_ver_exit), jwe dec exit 0 implies CEK unwrapped, canonical text and stdout = the decrypted octets; every library refusal (pub, use, eql, exc, gen, thp, b64 dec, sig, enc wrap/new/run) gives a non-zero status and no complete product; compact parsing/printing round trips, multi-signature / multi-recipient objects cannot be made compact, flattened<->general conversions; the streamed member is never repeated in JSON output. Library behaviour enters through the existing models (C01..C07, C12). Tie: ~3400 runs of the real binary per seed (all sub-commands, option combinations, file/stdin/stdout plumbing, detached forms, second round feeding products back into ver/dec) vs the extracted model on exit status and output, plus an implementation-only oracle against the library harness.",
+    design_ref="DESIGN.md section 3 C18",
+    note="Coq kernel; no axioms. getopt, fopen, tty newline and the password prompt are exercised by the correspondence, not modelled; cipher stages are modelled by their verdict at done(); jwe enc runs over three library steps given as Section variables.",
+    technique="Coq proof on a glue model over the library models + binary-vs-extracted-model correspondence",
+)
+
+CLAIMED["C20"] = dict(
+    category="fault_enumeration",
+    text="Two layers. (1) Coq theorems in coq/Props/Properties_C20.v on an operational allocation-fault model of the IO layer (Fault/Alloc.v, and restated on Io/Chain.v): for every chain of sinks, genuine-boolean stages and any/all multiplexers and EVERY set of failing allocation requests, the run is Failed or its sinks hold exactly the fault-free bytes (never 'Ok wrong'); a run that fails without faults fails under every fault set; a failed realloc leaves the malloc sink unchanged and a caller that stops at the first rejection leaves a prefix; necessity of the boolean-verdict premise (a size_t-as-bool done() hides failures). (2) Exhaustive single-fault enumeration on the real library built with its malloc/calloc/realloc/free (and jansson's) redirected at compile time: for each of 68+ scenarios (every entry point family, forged inputs, all registered algorithms in the thorough tier) and every k, the k-th request fails; verdict, fault-free re-verification of the product, leaks, caller-object integrity are checked; the chain scenarios are compared with the extracted fault model (verdict, sink bytes, number of requests).",
+    design_ref="DESIGN.md section 3 C20",
+    note="The theorems cover the IO-chain layer only; the glue of jws.c/jwe.c/jwk.c and the algorithm back ends have no Coq model and are decided by the enumeration (exhaustive over single faults in the listed scenarios, not a proof). OpenSSL/zlib internal allocations are out of scope. Open known findings: jansson json_dumps truncation and json_loadb crash under allocation failure.",
+    technique="Coq proof on the IO-chain fault model + exhaustive single-allocation-fault enumeration with compile-time allocator redirection, chains compared with the extracted model",
+)
+
 CLAIMED["C13"] = dict(
     category="proof",
     text="Theorems in coq/Props/Properties_C13.v over an ARBITRARY abelian group with scalar action (Section hypotheses): ECDH role symmetry a.(b.P) = b.(a.P); the three ECMR modes (local private: multiplication; only remote private: addition; neither: local minus remote) on the model of ecmr.c; the McCallum-Relyea recovery (C+E, s.(C+E), minus e.S) = c.S = s.C for all c, s, e, P; the result object has exactly kty, crv, x, y; refusals (kty / alg / curve mismatch, ECDH without local d, deriveKey not granted, keys that cannot be imported) on the decision model jwk_exc with the two exchange algorithms as records. Tie: decisions through the extracted model; x/y of every successful exchange recomputed by the Gallina curve arithmetic over BigZ (vm_compute inside coqc) for P-256/384/521, both role orders, the full recovery protocol on the implementation's own intermediates, every mismatch combination; implementation-only oracle (symmetry, recovery identity, no d, fixed coordinate width).",
@@ -162,7 +178,7 @@ def main():
         "setup_cmd": "./setup.sh",
         "hooks": {
             "guard": "LATCHSET_JOSE_VERIF",
-            "enable": "checks compile /repo's sources themselves with clang -DLATCHSET_JOSE_VERIF (tools/vlib.py build); no source hooks are currently needed",
+            "enable": "checks compile /repo's sources themselves with clang -DLATCHSET_JOSE_VERIF (tools/vlib.py build); no source hooks are needed: the allocation-fault build (C20, C09) redirects malloc/calloc/realloc/free of lib/ at compile time with -include /verif/harness/allochook.h and OpenSSL primitives are interposed by symbol (C14), both without touching /repo",
             "baseline_off_cmd": "cd /repo && ninja -C _build && meson test -C _build",
             "source_commits": [],
             "add_only": True,
